@@ -124,6 +124,14 @@ def r2_validate_shape(ctx):
     ctx.check(b.dominates(s.bb, ci) and strict and refuses, rule, [b.id, "sort-then-scan"], "sort dominates the scan; overlap iff end(i) > offset(i+1) -> Err",
               "validate_spans no longer sorts before scanning, or its overlap test is not `end(i) > offset(i+1)` leading to Err (op=%s, end-on-left=%s, refuses=%s)" % (op, end_left, refuses),
               "%s:%d" % (b.file, cst["l"]), sample={"sort": s.loc(), "cmp_op": op})
+    # the comparison is evaluated on every iteration: a conjunct in front of it (`spans[i+1].length > 0 && ..`) lets a pair pass
+    # unexamined, and since only adjacent pairs are compared, the pair it hides can be the only witness of an overlap
+    from .c12 import every_iteration
+    nxs = [c for c in b.calls if re.search(r"\bIterator>?::next$", c.orig_name or c.name) and ci in b.reachable(b.succ[c.bb]) and c.bb in b.reachable(b.succ[ci])]
+    if ctx.anchor(rule, nxs, "loop around the adjacent-pair comparison"):
+        ctx.check(every_iteration(b, nxs[0], ci), rule, [b.id, "every-pair-compared"], "every iteration reaches the end/offset comparison",
+                  "validate_spans skips the end(i) > offset(i+1) comparison on some iteration path (a guard in front of it): the skipped pair is "
+                  "never examined, and with only adjacent pairs compared an overlap straddling it is accepted", "%s:%d" % (b.file, cst["l"]))
     # loop over 0..len-1
     rng = [st for i, j, st in b.stmts() if st["r"]["k"] == "Agg" and st["r"].get("variant") == "Range"]
     ok = False
